@@ -47,12 +47,9 @@ CONFIG = dict(
     assumptions=["'sphinx' is not in sys.modules; warnings are not turned into errors (no -W error)",
                  "all other modules of the process carry no pending glue while a case runs (ensured by a warm-up scan)",
                  "a module's _stackscope_install_glue_ is present when the module is inserted (not added later)"],
-    unproved_legs=["C17_timely (concurrent and sequential): NOT proved in Coq -- statement and proof route are in coq/C17.v; "
-                   "only its refutation without the hypothesis (C17_F4_refuted) is proved. Checked by the direct oracle "
-                   "(ground truth read from the real sys.modules / module dicts / pending table at the start of every "
-                   "extraction) on every generated history and schedule whose descriptor does not match the F4 signature",
-                   "C17_never_both under 'registered before first import': NOT proved in Coq (refutation without the "
-                   "hypothesis proved: C17_never_both_refuted); checked by the direct oracle on every case",
+    unproved_legs=["C17_timely is proved (all schedules) for modules whose pending glue is module-provided; for a module whose "
+                   "pending glue is a built-in function it is checked by the direct oracle only (ground truth read from the "
+                   "real sys.modules / module dicts / pending table at the start of every extraction)",
                    "C17_at_most_once is proved for module-provided glue functions (per module object); for built-in "
                    "functions it is checked by the direct oracle only",
                    "C17_failure_is_warning: the warning step is proved for every state; 'the remaining names are still "
